@@ -23,7 +23,16 @@ import MdkVerif.Model.Store
       replace_group_relays → save_processed_welcome → save_welcome
   (as of /repo 4010ddc + 0dcc511; `accept` / `decline` refuse a welcome that is already Accepted).
   Also modelled (group traffic, only as far as the invitation property needs it): processing a commit of
-  the group (`applyCommit`) and receiving an application message (`probe`).
+  the group (`deliverCommit`, incl. commits that ROTATE the nostr group id and the store's refusal of a rotation
+  onto an id another record holds) and receiving an application message (`probe`).
+
+  The NOSTR GROUP ID (`nid`; the routing key of kind-445 events) is a field of the group record, of the
+  invitation and of the stored welcome.  `Store.saveGroup` carries the uniqueness rule both backends implement
+  (memory: explicit check against its by-id index; SQLite: UNIQUE index + `ON CONFLICT(mls_group_id)`; tied to the
+  source by `Generated.sqlSaveGroupConflictTarget`, `sqlNostrGroupIdUnique`, `memSaveGroupRefusesForeignNostrId`):
+  an invitation whose id is held by ANOTHER record of the recipient fails at `save_group(Pending)`, the FIRST write
+  of `process_welcome` — nothing has been written then (no processed-welcome record, no welcome, no MLS group:
+  `preview_welcome` only stages).
 -/
 namespace MdkVerif.Welcome
 open MdkVerif MdkVerif.Store
@@ -218,7 +227,8 @@ def isActive (c : Client) (gid : Nat) : Bool :=
 /-- a commit of group `gid` as its members see it -/
 structure Commit where
   gid : Nat
-  nid : Nat                 -- the nostr group id the wrapper event is routed by (`h` tag)
+  nid : Nat                 -- the nostr group id the wrapper event is routed by (`h` tag): the id in force BEFORE the commit
+  toNid : Nat               -- the nostr group id of the group data after the commit (≠ `nid`: the commit rotates the id)
   fromTok : Nat
   toTok : Nat
   toEpoch : Nat
@@ -227,30 +237,76 @@ structure Commit where
   removesMe : Bool          -- the receiving client is removed by this commit
   deriving DecidableEq, Repr, Inhabited
 
-/-- `process_message` of a commit by a member in the commit's parent state (`none`: not applicable — the
-    record is missing or the MLS state is not the parent state; the outcome is then not C16's subject) -/
-def applyCommit (c : Client) (k : Commit) : Option Client :=
-  match findGroup c.store k.gid, alookup k.gid c.mls with
-  | some g, some st =>
-    if g.nid ≠ k.nid then none                       -- not found by its `h` tag
-    else if st.tok ≠ k.fromTok then none
-    else if k.removesMe then
-      match saveGroup c.store { g with state := 1 } with
-      | none => none
-      | some s1 => some { store := s1, mls := ainsert k.gid { st with epoch := k.toEpoch, members := k.members } c.mls }
-    else
-      match saveGroup c.store { g with epoch := k.toEpoch, nameLen := k.nameLen } with
-      | none => none
-      | some s1 => some { store := s1, mls := ainsert k.gid { tok := k.toTok, epoch := k.toEpoch, members := k.members } c.mls }
-  | _, _ => none
+/-- outcome of `process_message` on a commit, as far as the invitation property needs it -/
+inductive DRes where
+  | applied                 -- MessageProcessingResult::Commit
+  | syncFailed              -- merged into the MLS state, then `sync_group_metadata_from_mls` was refused by the store
+  | notApplied              -- not routed to the group / not decryptable in the client's state: no effect on any group
+  deriving DecidableEq, Repr
 
-/-- can the client decrypt a fresh application message sent from state `senderTok` of group `gid`, whose
-    wrapper is routed by nostr group id `nid`?  (the record is looked up by the `h` tag; its `state` is not
-    consulted by `process_message`) -/
-def canDecrypt (c : Client) (gid nid senderTok : Nat) : Bool :=
-  match findGroup c.store gid, alookup gid c.mls with
-  | some g, some st => g.nid == nid && st.tok == senderTok
-  | _, _ => false
+/-- `MDK::exporter_secret(gid)`: get-or-create.  The secret STORED for (gid, current epoch) is answered if there is
+    one — whichever state it was exported from: the cache is keyed by the epoch NUMBER — otherwise the secret of the
+    current MLS state is exported and stored.  Secrets are named by the state token they belong to.  Called by
+    `decrypt_message` for the group an incoming event is ROUTED to (before anything is known about the event), and by
+    `process_commit` for the new epoch. -/
+def exporterSecret (c : Client) (gid : Nat) : Client × Option Nat :=
+  match alookup gid c.mls with
+  | none => (c, none)
+  | some st =>
+    match getSecret c.store gid st.epoch with
+    | none => (c, none)
+    | some (some v) => (c, some v)
+    | some none =>
+      match saveSecret c.store gid st.epoch st.tok with
+      | none => (c, none)
+      | some s1 => ({ c with store := s1 }, some st.tok)
+
+/-- the first steps of `process_message` for an event tagged `nid`: `find_group_by_nostr_group_id`, `load_mls_group`,
+    `exporter_secret` of THAT group (stored if new).  Answers the record the event was routed to, its MLS state and the
+    secret the outer layer will be opened with. -/
+def routeEvent (c : Client) (nid : Nat) : Client × Option (Group × MlsSt × Option Nat) :=
+  match findGroupNostr c.store nid with
+  | none => (c, none)
+  | some r =>
+    match alookup r.gid c.mls with
+    | none => (c, none)
+    | some st =>
+      let (c1, sec) := exporterSecret c r.gid
+      (c1, some (r, st, sec))
+
+/-- `process_message` of a commit.  The wrapper is routed by its `h` tag to the record that carries this nostr group
+    id (no two records share one, theorem `nid_unique_inv`); its outer layer opens only with the exporter secret of
+    the state it was made in — the receiver uses the secret it has CACHED for its current epoch number (the look-back
+    over past epochs never helps here: in this engine a sender is never behind the receiver) — and the MLS layer
+    accepts it only in the commit's parent state.  `process_commit` then MERGES the staged commit, caches the new
+    epoch's exporter secret, and only afterwards calls `sync_group_metadata_from_mls`, whose `save_group` writes epoch,
+    name and NOSTR GROUP ID of the new group data: if another record of this client holds that id the store refuses,
+    the call fails after the merge (Unprocessable; the MLS group is one epoch ahead of its record — known mechanism
+    store-limit-sync-failure). -/
+def deliverCommit (c : Client) (k : Commit) : Client × DRes :=
+  match routeEvent c k.nid with
+  | (c1, none) => (c1, .notApplied)                  -- GroupNotFound
+  | (c1, some (g, st, sec)) =>
+    if g.gid ≠ k.gid then (c1, .notApplied)          -- another group's event under this record's id: cannot be opened
+    else if sec ≠ some k.fromTok then (c1, .notApplied)
+    else if st.tok ≠ k.fromTok then (c1, .notApplied)
+    else if k.removesMe then
+      let mls := ainsert k.gid { st with epoch := k.toEpoch, members := k.members } c1.mls
+      match saveGroup c1.store { g with state := 1 } with
+      | none => ({ c1 with mls := mls }, .syncFailed)
+      | some s1 => ({ store := s1, mls := mls }, .applied)
+    else
+      let mls := ainsert k.gid { tok := k.toTok, epoch := k.toEpoch, members := k.members } c1.mls
+      let c2 := (exporterSecret { c1 with mls := mls } k.gid).1
+      match saveGroup c2.store { g with epoch := k.toEpoch, nameLen := k.nameLen, nid := k.toNid } with
+      | none => (c2, .syncFailed)
+      | some s1 => ({ c2 with store := s1 }, .applied)
+
+/-- the commit applied in full (`none`: it did not, whatever the reason) -/
+def applyCommit (c : Client) (k : Commit) : Option Client :=
+  match deliverCommit c k with
+  | (c', .applied) => some c'
+  | _ => none
 
 /-- storing the decrypted message: message row + last-message pointer -/
 def storeProbe (c : Client) (gid seq : Nat) : Client :=
@@ -265,5 +321,37 @@ def storeProbe (c : Client) (gid seq : Nat) : Client :=
       match saveGroup s1 { g with lastId := some seq, lastAt := some seq, lastProc := some seq } with
       | none => { c with store := s1 }
       | some s2 => { c with store := s2 }
+
+/-- `process_message` of a fresh application message sent from state `senderTok` of group `gid`, tagged `nid`:
+    routed by the tag, opened with the cached secret of the receiver's current epoch, decrypted by the MLS layer in the
+    sender's state; the record's `state` is not consulted -/
+def deliverApp (c : Client) (gid nid senderTok seq : Nat) : Client × Bool :=
+  match routeEvent c nid with
+  | (c1, none) => (c1, false)
+  | (c1, some (g, st, sec)) =>
+    if g.gid = gid ∧ sec = some senderTok ∧ st.tok = senderTok then (storeProbe c1 gid seq, true) else (c1, false)
+
+/-- can the client read a fresh application message sent from state `senderTok` of group `gid` under tag `nid`? -/
+def canDecrypt (c : Client) (gid nid senderTok : Nat) : Bool := (deliverApp c gid nid senderTok 0).2
+
+/-! ### histories: invitation operations interleaved with group traffic -/
+
+/-- everything the `invite` engine lets happen to the recipient: an invitation operation, the delivery of a
+    commit of some group (any content: renames, removals, ROTATIONS of the nostr group id), the delivery of an
+    application message of some group under any tag from any state -/
+inductive TOp where
+  | inv (o : Op)
+  | commit (k : Commit)
+  | probe (gid nid senderTok seq : Nat)
+  deriving Repr
+
+def tapply (c : Client) : TOp → Client
+  | .inv o => (apply c o).1
+  | .commit k => (deliverCommit c k).1
+  | .probe gid nid tok seq => (deliverApp c gid nid tok seq).1
+
+def trun (c : Client) : List TOp → Client
+  | [] => c
+  | o :: os => trun (tapply c o) os
 
 end MdkVerif.Welcome
